@@ -65,6 +65,27 @@ def mirror_class(case, obs):
     return best
 
 
+# what sys.stdin is while the command runs: backed by a descriptor / fileno() raises / no fileno method
+STDIN = ("file", "nofileno", "noattr")
+
+
+def pty_request(case):
+    """(pty asked for, sys.stdin has a usable fileno, effective fallback option)"""
+    fb = case.get("fallback")
+    return bool(case.get("pty")), case.get("stdin", "file") == "file", True if fb is None else bool(fb)
+
+
+def pty_class(case):
+    """the 'pty asked for x pty in effect' dimension: no-pty / pty (asked for, in effect) / pty>pipes (asked for,
+    sys.stdin without fileno, fell back to pipes) / pty!fallback (sys.stdin without fileno but fallback=False)"""
+    p, f, fb = pty_request(case)
+    if not p:
+        return "no-pty"
+    if f:
+        return "pty"
+    return "pty>pipes" if fb else "pty!fallback"
+
+
 # byte alphabet covering every lead/continuation class boundary of UTF-8
 BOUNDARY = [0x00, 0x0A, 0x0D, 0x41, 0x7F, 0x80, 0x8F, 0x90, 0x9F, 0xA0, 0xBF, 0xC0, 0xC1, 0xC2, 0xDF, 0xE0,
             0xE1, 0xEC, 0xED, 0xEE, 0xEF, 0xF0, 0xF1, 0xF3, 0xF4, 0xF5, 0xFF]
@@ -193,7 +214,10 @@ class C02(Prop):
     rule = ("scripted runs of the real Runner: stdout/stderr byte strings built from 1-4-byte UTF-8 "
             "sequences, boundary code points, overlong/surrogate/out-of-range/truncated/invalid bytes, split at "
             "random cut sets, interleaved with each other and with the exit event at a random position; "
-            "hide x out_stream/err_stream override x pty x async x exit code/warn matrix; encodings utf-8 "
+            "hide x out_stream/err_stream override x pty x async x exit code/warn matrix; pty asked for (30%) x "
+            "sys.stdin file/fileno() raises/no fileno method x fallback absent/True/False, the scripted runner deciding "
+            "pty-or-pipes by the real Local.should_use_pty (a pty asked for falls back to pipes in ~45% of those, key "
+            "pty>pipes: both streams are then owed); encodings utf-8 "
             "(70%), latin-1, ascii; the mirror stream objects (given out_stream/err_stream or the sys.stdout/"
             "sys.stderr stand-ins) advertise .encoding None(no attribute)/utf-8/ascii/latin-1/cp1252 "
             "independently per stream (30/10/22/19/19 %), 35% of the encoded ones are real io.TextIOWrapper("
@@ -244,7 +268,7 @@ class C02(Prop):
     # ------------------------------------------------------------------ cases
     def _case(self, rng, force_enc=None):
         enc = force_enc or rng.choice(["utf-8"] * 7 + ["latin-1", "ascii", "ascii"])
-        pty = rng.random() < 0.2
+        pty = rng.random() < 0.3
         evs = []
         safe = rng.random() < 0.55          # keep the defect-free region well populated
         out = [["out", c] for c in split(rng, rand_bytes(rng, enc), safe=safe)]
@@ -279,7 +303,16 @@ class C02(Prop):
             "pty": pty, "async": rng.random() < 0.15, "warn": rng.random() < 0.5,
         }
         case.update(self._mirrors(rng))
+        case.update(self._stdin(rng, pty))
         return case
+
+    @staticmethod
+    def _stdin(rng, pty):
+        """what sys.stdin is during the run and the fallback= keyword (None: not passed)"""
+        r = rng.random()
+        lim = 0.4 if pty else 0.7
+        kind = "file" if r < lim else "nofileno" if r < lim + (1 - lim) * 0.6 else "noattr"
+        return {"stdin": kind, "fallback": rng.choice([None, None, None, True, False])}
 
     @staticmethod
     def _mirrors(rng):
@@ -293,8 +326,38 @@ class C02(Prop):
             d[who + "_wrap"] = m is not None and rng.random() < 0.35
         return d
 
+    def pty_family(self, tier):
+        """pty asked for x sys.stdin x fallback x which streams carry data x hide x given streams: small
+        deterministic sweep (quick 48, thorough 576 cases), yielded first by generate"""
+        outs = [[["out", [111, 195]], ["out", [169, 10]]], []]
+        errs = [[["err", [101]], ["err", [226, 130]], ["err", [172]]], []] if tier == "thorough" else \
+            [[["err", [101, 226]], ["err", [130, 172]]]]
+        hides = ["none", "err", "both", "out"] if tier == "thorough" else ["none", "err"]
+        k = 0
+        for pty in (True, False):
+            for stdin in STDIN:
+                for fb in (None, True, False):
+                    if not pty and (stdin, fb) not in (("file", None), ("nofileno", None), ("noattr", False)):
+                        continue
+                    for o in outs:
+                        for e in errs:
+                            for h in hides:
+                                for given in ((True, True), (False, False), (False, True)) if tier == "thorough" \
+                                        else ((k % 2 == 0, k % 3 != 0),):
+                                    k += 1
+                                    evs = [list(x) for x in o + e]
+                                    evs.insert((k * 7) % (len(evs) + 1), ["exit", (0, 1, 0, -9)[k % 4]])
+                                    yield {"enc_from": "kwarg", "enc_cfg": None, "events": evs, "enc": "utf-8",
+                                           "hide": h, "out_given": given[0], "err_given": given[1], "pty": pty,
+                                           "async": k % 11 == 0, "warn": True, "stdin": stdin, "fallback": fb,
+                                           "out_menc": None, "out_wrap": False,
+                                           "err_menc": (None, "ascii", "latin-1")[k % 3], "err_wrap": k % 6 == 1}
+
     def generate(self, rng, tier, n):
-        for _ in range(n):
+        fam = list(self.pty_family(tier))
+        for c in fam[:n]:
+            yield c
+        for _ in range(max(0, n - len(fam))):
             yield self._case(rng)
 
     def enumerate_small(self, tier):
@@ -305,6 +368,8 @@ class C02(Prop):
         limit = 6 if tier == "thorough" else 4
         mirrors = [(None, False), ("ascii", False), ("latin-1", False), ("cp1252", False), ("utf-8", False),
                    ("ascii", True), ("latin-1", True), ("cp1252", True)]
+        ptys = [(True, "nofileno", None), (True, "file", None), (True, "noattr", True), (True, "nofileno", False),
+                (False, "nofileno", None), (True, "noattr", None), (False, "file", False), (True, "file", True)]
         count = 0
         for k in range(1, 4):
             for combo in itertools.product(frags, repeat=k):
@@ -328,6 +393,14 @@ class C02(Prop):
                     yield {"events": evs, "enc": "utf-8", "hide": "none", "out_given": bool(count % 3),
                            "err_given": False, "pty": False, "async": False, "warn": False,
                            "out_menc": m, "out_wrap": w, "err_menc": None, "err_wrap": False}
+                    if count % 4 == 0:
+                        # the same bytes on stderr, under each way of asking for a pty
+                        pty, stdin, fb = ptys[(count // 4) % len(ptys)]
+                        evs2 = [["err" if e[0] == "out" else e[0], e[1]] for e in evs]
+                        yield {"events": evs2, "enc": "utf-8", "hide": "none", "out_given": False,
+                               "err_given": bool(count % 3), "pty": pty, "stdin": stdin, "fallback": fb,
+                               "async": False, "warn": False,
+                               "out_menc": None, "out_wrap": False, "err_menc": m, "err_wrap": w}
 
     # ------------------------------------------------------------------ impl
     def run_impl(self, case):
@@ -352,7 +425,7 @@ class C02(Prop):
         me = "(mkMirror %s %s)" % (MENC[case.get("err_menc")], ct.b(bool(case.get("err_menc")) and bool(case.get("err_wrap"))))
         i = "(mkIn (effective_encoding %s %s %s) %s %s %s %s %s %s %s %s %s)" % (
             kw, cf, loc, so, se, HIDE[case["hide"]], ct.b(case["out_given"]), ct.b(case["err_given"]),
-            ct.b(case["pty"]), ct.b(case["async"]), mo, me)
+            " ".join(ct.b(x) for x in pty_request(case)), ct.b(case["async"]), mo, me)
         o = "(mkObs %s %s %s %s %s %s)" % (
             text(obs["stdout"]), text(obs["stderr"]), text(obs["out_stream"]), text(obs["err_stream"]),
             texts(obs["out_submits"]), texts(obs["err_submits"]))
@@ -367,7 +440,8 @@ class C02(Prop):
 
     def classify(self, case, obs):
         n = max(len(chunks_before_eof(case, "out")), len(chunks_before_eof(case, "err")))
-        return "%s%s%s reads:%s mirror:%s" % (case["enc"], " pty" if case["pty"] else "",
+        pc = pty_class(case)
+        return "%s%s%s reads:%s mirror:%s" % (case["enc"], "" if pc == "no-pty" else " " + pc,
                                               " async" if case["async"] else "",
                                               "0" if n == 0 else "1" if n == 1 else "2+", mirror_class(case, obs))
 
@@ -391,8 +465,11 @@ class C02(Prop):
                 for j in range(len(ev[1])):
                     yield dict(case, events=evs[:i] + [[ev[0], ev[1][:j] + ev[1][j + 1:]]] + evs[i + 1:])
         for k, v in (("hide", "none"), ("out_given", True), ("err_given", True), ("pty", False),
+                     ("fallback", None), ("stdin", "file"), ("stdin", "nofileno"),
                      ("async", False), ("warn", True), ("out_wrap", False), ("err_wrap", False),
                      ("out_menc", None), ("err_menc", None), ("out_menc", "ascii"), ("err_menc", "ascii")):
+            if k == "stdin" and "stdin" not in case:
+                continue
             if case.get(k) != v and not (v == "ascii" and case.get(k) is None):
                 yield dict(case, **{k: v})
         # merge adjacent reads of the same stream
@@ -404,10 +481,15 @@ class C02(Prop):
     def mutate(self, case, rng):
         for _ in range(40):
             c = self._case(rng, force_enc=case["enc"])
-            for k in ("hide", "out_given", "err_given", "pty", "async", "out_menc", "err_menc", "out_wrap", "err_wrap"):
-                if rng.random() < 0.6:
+            for k in ("hide", "out_given", "err_given", "pty", "async", "out_menc", "err_menc", "out_wrap", "err_wrap",
+                      "stdin", "fallback"):
+                if rng.random() < 0.6 and (k != "stdin" or "stdin" in case):
                     c[k] = case.get(k)
             yield c
+        # the neighbours along the pty dimension of the case itself
+        for pty, stdin, fb in itertools.product((True, False), STDIN, (None, True, False)):
+            if (pty, stdin, fb) != (bool(case.get("pty")), case.get("stdin"), case.get("fallback")):
+                yield dict(case, pty=pty, stdin=stdin, fallback=fb)
 
     # ------------------------------------------------------------------ extra
     def extra_checks(self, tier, seed):
@@ -562,6 +644,14 @@ class C02(Prop):
         cases.append({"n_out": 999, "n_err": 0, "kind": "straddle", "pty": False})
         cases.append({"n_out": 0, "n_err": 999, "kind": "straddle", "pty": False})
         cases.append({"n_out": 5000, "n_err": 0, "kind": "aligned", "pty": False})
+        # a pty is asked for but sys.stdin has no usable fileno: Local falls back to two pipes (both streams owed
+        # in full); with fallback=False the pty is used after all
+        cases.append({"n_out": 1500, "n_err": 1500, "kind": "ascii", "pty": True, "stdin": "nofileno"})
+        cases.append({"n_out": 0, "n_err": 999, "kind": "straddle", "pty": True, "stdin": "noattr", "fallback": True})
+        cases.append({"n_out": 3000, "n_err": 0, "kind": "ascii", "pty": True, "stdin": "nofileno", "fallback": False})
+        if tier != "quick":
+            cases.append({"n_out": 70001, "n_err": 70001, "kind": "ascii", "pty": True, "stdin": "nofileno"})
+            cases.append({"n_out": 1500, "n_err": 1500, "kind": "ascii", "pty": False, "stdin": "nofileno"})
         cases.append({"kind": "crlf", "pty": False})
         cases.append({"kind": "crlf", "pty": True})
         cases.append({"kind": "utf16", "bom": False})
@@ -581,7 +671,9 @@ class C02(Prop):
                 "note": "python3 children writing the payload in one go and exiting immediately, run through "
                         "Local (hide=True, in_stream=False); captured text compared with the decoding of the "
                         "payload.  'straddle' = 999 ASCII bytes + 2-byte characters, so the 1000-byte read "
-                        "cuts a character (regression witness of the fixed F-C02)"}
+                        "cuts a character (regression witness of the fixed F-C02); 'stdin' = sys.stdin replaced by an "
+                        "object without usable fileno while pty=True: Local falls back to pipes and owes both streams "
+                        "(fallback=False: the pty is used after all)"}
 
 
 def payload(kind, n, tag):
@@ -687,9 +779,18 @@ def real_child_case(c):
             "    if i<len(o): os.write(1,o[i:i+30000]); i+=30000\n"
             "    if j<len(e): os.write(2,e[j:j+30000]); j+=30000\n"
             "os._exit(0)\n" % (path, len(out), len(out)))
+    kw = {}
+    if c.get("fallback") is not None:
+        kw["fallback"] = c["fallback"]
+    saved = sys.stdin, sys.stderr
     try:
-        r = rc.run_real([sys.executable, "-c", prog], pty=c["pty"], encoding=enc, hide=True, in_stream=False)
+        if c.get("stdin"):
+            import io
+            sys.stdin = rc.stdin_stand_in(c["stdin"])
+            sys.stderr = io.StringIO()          # Local's one-off "falling back to non-pty execution" warning
+        r = rc.run_real([sys.executable, "-c", prog], pty=c["pty"], encoding=enc, hide=True, in_stream=False, **kw)
     finally:
+        sys.stdin, sys.stderr = saved
         os.unlink(path)
     if r["hang"]:
         return {"case": c, "what": "run() did not return within the bound: %s" % r["hang_what"]}
@@ -697,7 +798,7 @@ def real_child_case(c):
         return {"case": c, "what": "unexpected outcome %s" % r["outcome"]}
     want_out = out.decode(enc, "replace")
     want_err = err.decode(enc, "replace")
-    if c["pty"]:
+    if pty_class(dict(c, stdin=c.get("stdin") or "file")) in ("pty", "pty!fallback"):      # a pty is in effect
         want_out, want_err = want_out.replace("\n", "\r\n"), ""
     got = (r["stdout"], r["stderr"])
     if got == (want_out, want_err):
